@@ -326,6 +326,50 @@ def compat_flips(ctx, su, sv, dim):
             ctx.check_eq_grid('surface(flip_ctrlpts_u(Urow)).ctrlpts2d=G', g[i], G[i])
 
 
+@scenario('C13', fns=['compatibility.flip_ctrlpts2d_file', 'compatibility.flip_ctrlpts2d', 'compatibility._read_ctrltps2d_file',
+                      'compatibility._save_ctrlpts2d_file'],
+          quick=[dict(su=2, sv=3), dict(su=3, sv=2), dict(su=1, sv=3), dict(su=2, sv=2)])
+def compat_flip_file(ctx, su, sv):
+    """requires: a text file of su lines with sv points each (A3: numbers print to tokens that read back as themselves)
+       ensures : flip_ctrlpts2d_file writes sv lines of su points with out[v][u] == in[u][v]; applied twice it gives the
+                 original file content back"""
+    import os
+    import shutil
+    import tempfile
+    cp = ctx.geomdl('compatibility')
+    G = [[[ctx.num('G%d_%d_%d' % (i, j, d)) for d in range(3)] for j in range(sv)] for i in range(su)]
+
+    def parse(path):
+        rows = []
+        with open(path) as f:
+            for line in f.read().split('\n'):
+                if line.strip():
+                    rows.append([[ctx.q.vq_float(c.strip()) if ctx.mode == 'sym' else float(c) for c in pt.split(',')]
+                                 for pt in line.strip().split(';')])
+        return rows
+
+    d = tempfile.mkdtemp(prefix='verif_c13_', dir=os.environ.get('TMPDIR') or '/tmp')
+    try:
+        fin, fmid, fout = (os.path.join(d, nm) for nm in ('in.txt', 'mid.txt', 'out.txt'))
+        with open(fin, 'w') as f:
+            f.write('\n'.join(';'.join(','.join(str(c) for c in pt) for pt in row) for row in G) + '\n')
+        cp.flip_ctrlpts2d_file(fin, fmid)
+        mid = parse(fmid)
+        ctx.check_true('flipped_file.shape', len(mid) == sv and all(len(r) == su for r in mid),
+                       'lines have %r points, expected %d lines of %d' % ([len(r) for r in mid], sv, su))
+        for j in range(min(sv, len(mid))):
+            for i in range(min(su, len(mid[j]))):
+                ctx.check_eq_vec('flipped_file[v][u]=G[u][v]', mid[j][i], G[i][j])
+        cp.flip_ctrlpts2d_file(fmid, fout)
+        out = parse(fout)
+        ctx.check_true('twice.shape', len(out) == su and all(len(r) == sv for r in out))
+        for i in range(min(su, len(out))):
+            if len(out[i]) == sv:
+                ctx.check_eq_grid('twice=original[%d]' % i, out[i], G[i])
+    finally:
+        shutil.rmtree(d, ignore_errors=True)
+
+
 # ------------------------------------------------------------------------------------------------
 # surfaces: builders shared by transpose / flip / round trip / sweep
 # ------------------------------------------------------------------------------------------------
@@ -363,6 +407,9 @@ def _tr_shapes(tier):
                 dict(pu=2, pv=3, mu=[2], mv=[], rational=False, inplace=True),
                 dict(pu=2, pv=2, mu=[1], mv=[], rational=True, inplace=False),
                 dict(pu=1, pv=3, mu=[1], mv=[1], rational=True, inplace=True)]
+    # the method of the surface classes (BSpline.Surface.transpose, inherited by NURBS.Surface)
+    out += [dict(pu=2, pv=1, mu=[1], mv=[], rational=False, inplace=True, via='method'),
+            dict(pu=1, pv=2, mu=[], mv=[1], rational=True, inplace=True, via='method')]
     return out
 
 
@@ -370,7 +417,7 @@ def _tr_shapes(tier):
                       'BSpline.Surface.evaluate_single', 'evaluators.SurfaceEvaluator.evaluate',
                       'evaluators.SurfaceEvaluatorRational.evaluate'],
           quick=lambda: _tr_shapes('quick'), thorough=lambda: _tr_shapes('thorough'))
-def transpose(ctx, pu, pv, mu, mv, rational, inplace):
+def transpose(ctx, pu, pv, mu, mv, rational, inplace, via='operations'):
     """requires: su != sv, pu != pv, valid clamped knot vectors, (a, b) in the unit square, positive weights
        ensures : T = transpose(S): T(a, b) == S(b, a); sizes, degrees and knot vectors swapped; point (j, i) of T is
                  point (i, j) of S; transpose(T) is S again; inplace=False leaves S alone and returns a new object"""
@@ -381,7 +428,11 @@ def transpose(ctx, pu, pv, mu, mv, rational, inplace):
     b = shapes.param_in(ctx, 'b', ctx.lit(0), ctx.lit(1))
     want = _surf_spec(ctx, pu, pv, U, V, P, W, su, sv, b, a)            # S(b, a)
     state = _surface_state(srf, rational)
-    T = ops.transpose(srf, inplace=inplace)
+    if via == 'method':                  # the Surface.transpose() method: always in place
+        ctx.check_true('method.returns_none', srf.transpose() is None)
+        T = srf
+    else:
+        T = ops.transpose(srf, inplace=inplace)
     if inplace:
         ctx.check_true('inplace.same_object', T is srf)
     else:
@@ -398,7 +449,11 @@ def transpose(ctx, pu, pv, mu, mv, rational, inplace):
         for j in range(sv):
             ctx.check_eq_vec('T.point(j,i)=S.point(i,j)', tf[spec.layout(j, i, 0, sv, su)], Pw[spec.layout(i, j, 0, su, sv)])
     ctx.check_eq_vec('T(a,b)=S(b,a)', T.evaluate_single([a, b]), want)
-    T2 = ops.transpose(T, inplace=inplace)
+    if via == 'method':
+        T.transpose()
+        T2 = T
+    else:
+        T2 = ops.transpose(T, inplace=inplace)
     _check_surface_state(ctx, 'twice=identity', T2, rational, state)
     ctx.check_eq_vec('twice(b,a)=S(b,a)', T2.evaluate_single([b, a]), want)
 
